@@ -166,6 +166,18 @@ fn check_float_bits(bits: u64, exp_form: bool) -> Verdict {
 
 /// random decimal strings matching the float token; oracle: std's correctly rounded parser
 fn float_string(d: &mut Dec) -> String {
+    // one case in eight sits a hair above / exactly on / a hair below the midpoint of two neighbouring doubles, written
+    // with 40-120 digits (the nearest double is decided by the very last digit)
+    if d.below(8) == 7 {
+        let n = ((1u64 << 53) + (d.u64() % (1u64 << 53))) & !1; // an even integer that is a double, its neighbour is n + 2
+        let zeros = "0".repeat(20 + d.below(100));
+        return match d.below(4) {
+            0 => format!("f{}.{}1", n + 1, zeros),
+            1 => format!("f{}.{}", n + 1, zeros),
+            2 => format!("f{}.{}9", n, "9".repeat(20 + d.below(100))),
+            _ => format!("f{}.{}1e-{}", (n + 1) as u128 * 1000, zeros, 3),
+        };
+    }
     let mut s = String::from("f");
     s.push_str(*d.pick(&["", "-", "+"]));
     let ni = d.below(25);
